@@ -392,37 +392,12 @@ def rule_G(ctx):
         ctx.check(bad is None, 'C19.A', f, '%s ignores NaN wherever it stands and answers the empty aggregate when no value is left (%d value lists)' % (name, len(lists)),
                   witness=bad, node=f.node, key='agg:' + name)
     # ---- (2) getCell: the cell returned contains the point
-    class Bb(orders.PyStub):
-        isa = ('Bbox',)
+    # the extent is the repository's own Bbox over its own ENUCoords corners (dimensions, margins and copies are the code's)
+    BBc = absint.classref(ctx, 'tracklib.core.bbox.Bbox', fn)
+    ENc = absint.classref(ctx, 'tracklib.core.obs_coords.ENUCoords', fn)
 
-        def __init__(self, xmin, xmax, ymin, ymax):
-            self.v = (float(xmin), float(xmax), float(ymin), float(ymax))
-
-        def copy(self):
-            return Bb(*self.v)
-
-        def addMargin(self, m):
-            xmin, xmax, ymin, ymax = self.v
-            dx, dy = (xmax - xmin) * m, (ymax - ymin) * m
-            self.v = (xmin - dx, xmax + dx, ymin - dy, ymax + dy)
-
-        def asTuple(self):
-            return self.v
-
-        def getDimensions(self):
-            return (self.v[1] - self.v[0], self.v[3] - self.v[2])
-
-        def getXmin(self):
-            return self.v[0]
-
-        def getXmax(self):
-            return self.v[1]
-
-        def getYmin(self):
-            return self.v[2]
-
-        def getYmax(self):
-            return self.v[3]
+    def Bb(xmin, xmax, ymin, ymax):
+        return BBc(ENc(float(xmin), float(ymin), 0.0), ENc(float(xmax), float(ymax), 0.0))
 
     class P(orders.PyStub):
         isa = ('ENUCoords',)
@@ -442,7 +417,9 @@ def rule_G(ctx):
              ('extent not a whole number of rows (height 25, cells of 10)', (0.0, 30.0, 0.0, 25.0), (10.0, 10.0)),
              ('extent not a whole number of columns (width 24, cells 10 x 5)', (100.0, 124.0, -10.0, 0.0), (10.0, 5.0)),
              ('one cell', (0.0, 8.0, 0.0, 8.0), (10.0, 10.0)),
-             ('cells wider than high (20 x 4)', (0.0, 40.0, 0.0, 12.0), (20.0, 4.0))]
+             ('cells wider than high (20 x 4)', (0.0, 40.0, 0.0, 12.0), (20.0, 4.0)),
+             ('height a few last-place units above 3 rows of 1', (0.0, 3.0, 0.0, 3.0 + 2.0 ** -32), (1.0, 1.0)),
+             ('width a few last-place units above 2 columns of 0.1', (0.0, 0.2 + 2.0 ** -40, 0.0, 0.3), (0.1, 0.1))]
     bad = None
     for gname, ext, res in grids:
         try:
@@ -452,8 +429,8 @@ def rule_G(ctx):
         ncol, nrow = r.fields.get('ncol'), r.fields.get('nrow')
         xmin, xmax, ymin, ymax = ext
         rx, ry = res
-        xs_ = sorted({xmin, xmax} | {xmin + k * rx for k in range(1, 6) if xmin + k * rx < xmax} | {xmin + (k + 0.5) * rx for k in range(6) if xmin + (k + 0.5) * rx < xmax} | {xmax - 0.25})
-        ys_ = sorted({ymin, ymax} | {ymin + k * ry for k in range(1, 6) if ymin + k * ry < ymax} | {ymin + (k + 0.5) * ry for k in range(6) if ymin + (k + 0.5) * ry < ymax} | {ymax - 0.25})
+        xs_ = sorted({xmin, xmax} | {xmin + k * rx for k in range(1, 6) if xmin + k * rx < xmax} | {xmin + (k + 0.5) * rx for k in range(6) if xmin + (k + 0.5) * rx < xmax} | {xmax - 0.025 * rx})
+        ys_ = sorted({ymin, ymax} | {ymin + k * ry for k in range(1, 6) if ymin + k * ry < ymax} | {ymin + (k + 0.5) * ry for k in range(6) if ymin + (k + 0.5) * ry < ymax} | {ymax - 0.025 * ry})
         for x in xs_:
             for y in ys_:
                 n_cases += 1
@@ -529,6 +506,7 @@ def rule_G(ctx):
     layouts = {
         'two tracks with different uids': [(1, [(5, 5), (15, 5), (15, 15), (25, 15)], [1.0, 2.0, DNAN, 4.0]), (2, [(5, 5), (5, 15), (25, 15)], [10.0, 20.0, 30.0])],
         'three tracks sharing one uid, their i-th fixes in different cells': [(0, [(5, 5), (15, 5)], [1.0, 2.0]), (0, [(25, 15), (5, 15)], [5.0, 7.0]), (0, [(15, 15), (15, 15)], [DNAN, 9.0])],
+        'values that are zero (0.0, -0.0, the integer 0) next to others': [(1, [(5, 5), (5, 6), (15, 5), (25, 15)], [0.0, 3.0, 0, -0.0]), (2, [(5, 5), (15, 5), (25, 15), (25, 16)], [0.0, 0.0, 2.0, -2.0])],
     }
     aggs = ['co_median', 'co_count', 'co_sum', 'co_min', 'co_max', 'co_avg']      # the median first: the later maps read the same per-cell lists
     nodata = ctx.prog.module(RAS).consts.get('NO_DATA_VALUE')
